@@ -349,6 +349,17 @@ def gen_cases(ctx):
                "requests": [{"id": "after-pathy", "mode": "202_then_event", "delay": 0.6}], "exit": "normal"}
         yield {"est": {"kind": "path_mcp"}, "server_msgs": pathy[:1], "cuts": [7], "bare": bare, "server_msgs_at": 0.2,
                "requests": [{"id": 3, "mode": "200_body"}, {"id": 4, "mode": "event_then_202"}], "exit": "normal"}
+    # every request mode followed by a healthy request and a server notification: whatever a request ended with, the
+    # connection goes on (deterministic - the seeded sequences further down reach the pairs only by chance)
+    after_note = [{"jsonrpc": "2.0", "method": "notifications/message", "params": {"level": "info", "data": "after the first request"}}]
+    for mode in REQUEST_MODES:
+        if mode in ("202_silence_comments", "202_silence_notes") or mode.startswith(("server_request_same_id", "event_note")):
+            continue        # (modes that put messages of their own on the event stream are judged in their own cases)
+        late = TIMEOUT + 2.0 if mode in ("202_silence", "202_then_malformed_event", "malformed_event_then_202", "read_timeout") else 2.0
+        for second in ("202_then_event", "200_body"):
+            yield {"est": {"kind": "path"}, "requests": [{"id": "first", "mode": mode, "delay": 0.1},
+                                                         {"id": "second", "mode": second, "delay": 0.1}],
+                   "server_msgs": after_note, "cuts": [], "server_msgs_at": late, "exit": "normal"}
     for mode in ("202_then_event", "event_then_202", "202_then_event_error"):
         yield {"est": {"kind": "untyped_path"}, "bare": True, "requests": [{"id": 8, "mode": mode, "delay": 0.1}], "exit": "normal"}
     for rk in ("list", "str", "zero", "empty_list"):
@@ -423,6 +434,17 @@ def gen_cases(ctx):
         yield {"est": {"kind": "path"}, "server_msgs": sm, "cuts": sorted(rng.sample(range(1, raw_len), k)),
                "requests": [{"id": "mix", "mode": rng.choice(["202_then_event", "200_body"])}], "exit": "normal"}
     yield {"est": {"kind": "path"}, "server_msgs": sm, "cuts": list(range(1, raw_len)), "requests": [], "exit": "normal"}
+    # one server message far larger than a read (a base64 screenshot in a notification), arriving in pieces of 1, 16 and
+    # 64 KiB, with a small message behind it
+    for size in ((300_000,) if ctx.tier == "quick" else (70_000, 300_000, 2_000_000)):
+        bigm = [{"jsonrpc": "2.0", "method": "notifications/message", "params": {"level": "info", "data": "B" * size}},
+                {"jsonrpc": "2.0", "method": "notifications/message", "params": {"level": "info", "data": "after the big one"}}]
+        blen = len(b"".join(sse_event("message", json.dumps(w, ensure_ascii=False)) for w in bigm))
+        for piece in (1000, 16384, 65536):
+            if size > 500_000 and piece == 1000:
+                continue
+            yield {"est": {"kind": "path"}, "server_msgs": bigm, "cuts": list(range(piece, blen, piece)), "server_msgs_at": 0.2,
+                   "requests": [{"id": "after-big", "mode": "202_then_event", "delay": 1.5}], "exit": "normal"}
     # more server messages in one read than the read stream buffers (100), alone and ahead of an answer
     for n in (100, 101, 150, 400):
         big = [{"jsonrpc": "2.0", "method": "notifications/progress", "params": {"progressToken": "p", "progress": i}}
